@@ -16,6 +16,8 @@
 (*   update  Update(height, blk) at the end of CommitBlock (the new        *)
 (*           speculative state and KeyImageReset happen under the same     *)
 (*           lock just before), with len(goodTxs), len(utxoTxs)            *)
+(* (One more point of the commit is visible to submissions: see            *)
+(* TAddDuringCommit.)                                                      *)
 (* Submissions refused before the lock is taken (dedup cache, basic check, *)
 (* pool full) change nothing and are not part of the trace.                *)
 (* A trace is accepted when TLC can consume every line: each add must get  *)
@@ -52,6 +54,22 @@ TAdd == /\ Ev.e = "add" /\ Consume
         /\ Len(pool'.good) = Ev.g /\ Len(pool'.utxoq) = Ev.u
         /\ (Ev.cn >= 0 => pool'.cn[TX[Ev.t].s] = Ev.cn)
 
+\* CommitBlock saves the key images of the block it commits (utxoStore.SaveUtxo) just BEFORE it
+\* takes the pool's lock: a spend of such a key image that is state-checked in that window is
+\* already refused as a double spend although the Update event comes later.  Nothing changes.
+RECURSIVE NextUpdateBlk(_)
+NextUpdateBlk(i) == IF i > Len(TraceLog) \/ TraceLog[i].e = "boot" THEN <<>>
+                    ELSE IF TraceLog[i].e = "update" THEN TraceLog[i].blk
+                    ELSE NextUpdateBlk(i + 1)
+TAddDuringCommit ==
+  /\ Ev.e = "add" /\ ~Ev.ok /\ Ev.v = "dblspend" /\ Consume
+  /\ TX[Ev.t].k = "spend"
+  /\ LET b == NextUpdateBlk(l + 1) IN
+       \E j \in 1..Len(b) : TX[b[j]].k = "spend" /\ TX[b[j]].ki = TX[Ev.t].ki
+  /\ Len(pool.good) = Ev.g /\ Len(pool.utxoq) = Ev.u
+  /\ steps' = steps + 1 /\ last' = [op |-> "add", t |-> Ev.t, v |-> "dblspend"]
+  /\ UNCHANGED <<cfg, ledger, pool>>
+
 TReap == /\ Ev.e = "reap" /\ Consume
          /\ Reap(Ev.max)
          /\ last'.res = Ev.res
@@ -60,7 +78,7 @@ TUpdate == /\ Ev.e = "update" /\ Consume
            /\ Commit("trace", 0, Ev.blk, FALSE)
            /\ Len(pool'.good) = Ev.g /\ Len(pool'.utxoq) = Ev.u
 
-TraceNext == l <= Len(TraceLog) /\ (TBoot \/ TAdd \/ TReap \/ TUpdate)
+TraceNext == l <= Len(TraceLog) /\ (TBoot \/ TAdd \/ TAddDuringCommit \/ TReap \/ TUpdate)
 
 TraceSpec == TraceInit /\ [][TraceNext]_tvars
 
